@@ -163,6 +163,10 @@ def _shard_main(args):
 # --------------------------------------------------------------------- shrink
 
 
+# case metadata written by mutation/enumeration engines: never touched by the shrinker
+PROTECTED_KEYS = {"k", "broken", "layout", "collision", "mutation", "meta", "spec"}
+
+
 def _reductions(x, path=()):
     """yield (path, op) candidate edits of a JSON value, big deletions first."""
     if isinstance(x, list):
@@ -175,10 +179,12 @@ def _reductions(x, path=()):
             yield from _reductions(v, (*path, i))
     elif isinstance(x, dict):
         for k in list(x):
-            if k in ("k",):
+            if k in PROTECTED_KEYS:
                 continue
             yield (*path, k), "del"
         for k, v in x.items():
+            if k in PROTECTED_KEYS:
+                continue
             yield from _reductions(v, (*path, k))
     elif isinstance(x, str) and len(x) > 1:
         yield path, "half1"
@@ -393,6 +399,9 @@ def standard_main(prop, pid, a, seed, t0, extra_results=None):
             shrunk[sig] = (small, msg, evals)
 
     os.makedirs(os.path.join(OUT, pid), exist_ok=True)
+    for fn in os.listdir(os.path.join(OUT, pid)):
+        if fn.endswith(".json"):
+            os.unlink(os.path.join(OUT, pid, fn))
     viol_lines = []
     known_lines = []
     nviol = 0
